@@ -168,63 +168,62 @@ Proof.
   intros H. unfold sat_sum. rewrite sat_sum_acc; [reflexivity | unfold U32MAX; lia | exact H].
 Qed.
 
-Lemma wrap_sum_acc ws : forall a, fold_left add_wrap ws (a mod U32MOD) = (a + plain_sum ws) mod U32MOD.
-Proof.
-  induction ws as [|w ws IH]; intros a; cbn [fold_left].
-  - unfold plain_sum. cbn [fold_left]. rewrite N.add_0_r. reflexivity.
-  - unfold add_wrap at 2. rewrite N.add_mod_idemp_l by (unfold U32MOD; lia). rewrite IH.
-    unfold plain_sum at 2. cbn [fold_left]. rewrite (plain_sum_acc ws (0 + w)). f_equal. lia.
-Qed.
-
-Lemma wrap_sum_mod ws : wrap_sum ws = plain_sum ws mod U32MOD.
-Proof. unfold wrap_sum. change 0 with (0 mod U32MOD) at 1. rewrite wrap_sum_acc. reflexivity. Qed.
-
 Lemma in_le_plain_sum w ws : In w ws -> w <= plain_sum ws.
 Proof.
   induction ws as [|x ws IH]; intros H; [destruct H|].
   unfold plain_sum. cbn [fold_left]. rewrite plain_sum_acc. destruct H as [->|H]; [lia|]. specialize (IH H). lia.
 Qed.
 
-(* single network: generate's saturating sum *)
-Theorem weights_plain c g :
-  multi_network c = false -> In g (build_cla c) ->
-  Forall (fun w => w <= U32MAX) (map m_weight (snd g)) ->
+(* the locality weight is the saturating sum of the member weights, on both code paths
+   (generate, and refreshWeight after the network filter); nil for a locality left without members *)
+Theorem weights_full c g :
+  In g (build_cla c) -> Forall (fun w => w <= U32MAX) (map m_weight (snd g)) ->
+  snd (fst g) = match snd g with
+                | [] => if multi_network c then None else Some 0
+                | ms => Some (N.min (plain_sum (map m_weight ms)) U32MAX)
+                end.
+Proof.
+  unfold build_cla. destruct (negb (c_found c)); [intros []|].
+  destruct (find_port (c_port c) (c_ports c)) as [pname|]; [|intros []].
+  destruct (multi_network c); intros Hg Hw; apply in_map_iff in Hg; destruct Hg as (g0 & <- & _).
+  - unfold net_filter_group in *. cbn [fst snd] in *.
+    destruct (direct_members c (snd g0) ++ map gw_member (sort_gws (gw_weights c (snd g0)))) eqn:E; [reflexivity|].
+    rewrite sat_sum_min by exact Hw. reflexivity.
+  - unfold plain_group in *. cbn [fst snd] in *. rewrite sat_sum_min by exact Hw.
+    destruct (map member_of (snd g0)); reflexivity.
+Qed.
+
+(* every locality of a single-network assignment has members *)
+Lemma plain_groups_nonempty c g : multi_network c = false -> In g (build_cla c) -> snd g <> [].
+Proof.
+  unfold build_cla. destruct (negb (c_found c)); [intros _ []|].
+  destruct (find_port (c_port c) (c_ports c)) as [pname|]; [|intros _ []].
+  intros Hm. rewrite Hm. intros Hg. apply in_map_iff in Hg. destruct Hg as (g0 & <- & Hg0).
+  apply in_map_iff in Hg0. destruct Hg0 as (l & <- & Hl). apply in_localities in Hl. destruct Hl as (e & He & El).
+  unfold plain_group. cbn [snd]. intros Hnil. apply map_eq_nil in Hnil.
+  assert (Hin : In e (snd (group_of (selected c pname) l))) by (apply in_group; auto).
+  rewrite Hnil in Hin. exact Hin.
+Qed.
+
+Theorem weights c g :
+  In g (build_cla c) -> snd g <> [] -> Forall (fun w => w <= U32MAX) (map m_weight (snd g)) ->
   snd (fst g) = Some (N.min (plain_sum (map m_weight (snd g))) U32MAX).
 Proof.
-  unfold build_cla. destruct (negb (c_found c)); [intros _ []|].
-  destruct (find_port (c_port c) (c_ports c)) as [pname|]; [|intros _ []].
-  intros Hm. rewrite Hm. intros Hg Hw. apply in_map_iff in Hg. destruct Hg as (g0 & <- & _).
-  unfold plain_group in *. cbn [fst snd] in *. rewrite sat_sum_min by exact Hw. reflexivity.
+  intros Hg Hne Hw. rewrite (weights_full c g Hg Hw). destruct (snd g); [contradiction | reflexivity].
 Qed.
 
-(* multi-network: refreshWeight's wrapping sum; nil for a locality that lost all its members *)
-Theorem weights_multi c g :
-  multi_network c = true -> In g (build_cla c) ->
-  snd (fst g) = match snd g with [] => None | ms => Some (plain_sum (map m_weight ms) mod U32MOD) end.
+(* consistency: localities with the same members get the same weight, whichever path produced them *)
+Theorem weights_consistent c1 c2 g1 g2 :
+  In g1 (build_cla c1) -> In g2 (build_cla c2) -> snd g1 = snd g2 -> snd g1 <> [] ->
+  Forall (fun w => w <= U32MAX) (map m_weight (snd g1)) ->
+  snd (fst g1) = snd (fst g2).
 Proof.
-  unfold build_cla. destruct (negb (c_found c)); [intros _ []|].
-  destruct (find_port (c_port c) (c_ports c)) as [pname|]; [|intros _ []].
-  intros Hm. rewrite Hm. intros Hg. apply in_map_iff in Hg. destruct Hg as (g0 & <- & _).
-  unfold net_filter_group. cbn [fst snd].
-  destruct (direct_members c (snd g0) ++ map gw_member (sort_gws (gw_weights c (snd g0)))); [reflexivity|].
-  rewrite wrap_sum_mod. reflexivity.
+  intros H1 H2 E Hne Hw. rewrite (weights c1 g1 H1 Hne Hw).
+  rewrite (weights c2 g2 H2); rewrite <- E; auto.
 Qed.
 
-(* the property: the locality weight is the sum of its members' weights -- below 2^32 *)
-Theorem weights_exact c g :
-  In g (build_cla c) -> snd g <> [] -> plain_sum (map m_weight (snd g)) < U32MOD ->
-  snd (fst g) = Some (plain_sum (map m_weight (snd g))).
-Proof.
-  intros Hg Hne Hlt. destruct (multi_network c) eqn:Hm.
-  - rewrite (weights_multi c g Hm Hg). destruct (snd g) eqn:E; [contradiction|].
-    rewrite N.mod_small by exact Hlt. reflexivity.
-  - rewrite (weights_plain c g Hm Hg).
-    + f_equal. unfold U32MOD, U32MAX in *. lia.
-    + apply Forall_forall. intros w Hw. pose proof (in_le_plain_sum w _ Hw). unfold U32MOD, U32MAX in *. lia.
-Qed.
-
-(* K12: at or above 2^32 the two paths disagree; witness = two endpoints of weight 2^31 seen by a
-   proxy on their own network while a gateway exists *)
+(* the former K12 witness: two endpoints of weight 2^31 seen by a proxy on their own network, with and
+   without a gateway configured *)
 Definition k12_ep (addr : N) : ep :=
   {| e_wl := 1; e_addr := addr; e_dns := false; e_port := 1; e_eport := 8080; e_sa := 0; e_health := Healthy;
      e_send_unh := false; e_weight := 2147483648; e_labels := []; e_net := 2; e_cluster := 2; e_loc := 1; e_tls := true;
@@ -236,20 +235,8 @@ Definition k12_in (gws : list gw) : cla_in :=
      c_shards := Some [((1, 2), [k12_ep 1; k12_ep 2])] |}.
 Definition k12_gw : gw := {| g_net := 2; g_cluster := 2; g_addr := 1; g_port := 15443 |}.
 
-Theorem weights_refuted :
-  exists c g, In g (build_cla c) /\ snd g <> [] /\
-    Forall (fun w => w <= U32MAX) (map m_weight (snd g)) /\
-    snd (fst g) <> Some (N.min (plain_sum (map m_weight (snd g))) U32MAX).
-Proof.
-  exists (k12_in [k12_gw]). eexists. split; [vm_compute; left; reflexivity|].
-  cbn [snd fst]. split; [discriminate|]. split.
-  - repeat constructor; vm_compute; discriminate.
-  - vm_compute. discriminate.
-Qed.
-
-(* the same members without gateways get the saturated weight: the two paths are inconsistent *)
-Theorem weights_inconsistent :
+Lemma weights_example :
   map (fun g : lgroup => snd g) (build_cla (k12_in [])) = map (fun g : lgroup => snd g) (build_cla (k12_in [k12_gw])) /\
   map (fun g : lgroup => snd (fst g)) (build_cla (k12_in [])) = [Some U32MAX] /\
-  map (fun g : lgroup => snd (fst g)) (build_cla (k12_in [k12_gw])) = [Some 0].
+  map (fun g : lgroup => snd (fst g)) (build_cla (k12_in [k12_gw])) = [Some U32MAX].
 Proof. vm_compute. repeat split; reflexivity. Qed.
